@@ -71,5 +71,67 @@ fn lexer_skip_5() {
     skip_harness::<5>()
 }
 
+// ---------------------------------------------------------------------------------------------------------------
+/// C06 "highest terminal priority among the matching ones" / docs/src/lexers.md "A first match in a priority group will
+/// reduce further matches only to that group": the real TokenIterator (new + Iterator::next) over three table entries
+/// with SYMBOLIC match results and SYMBOLIC finish flags (all 64 combinations).  Oracle from the documented meaning of
+/// the flag (LRState::sorted_terminals: "if we already have terminals that matched at this location no further
+/// terminals should be tried"): entries are tried in order; after a flagged entry the search ends if anything has
+/// matched so far.  bounded(three entries).  Twin of lexer::TokenIterator::next_body (Verus).
+struct BitRec(bool);
+impl<'i> TokenRecognizer<'i> for BitRec {
+    fn recognize(&self, input: &'i str) -> Option<&'i str> {
+        if self.0 { Some(&input[0..1]) } else { None }
+    }
+}
+static REC_YES: BitRec = BitRec(true);
+static REC_NO: BitRec = BitRec(false);
+
+#[kani::proof]
+#[kani::unwind(6)]
+fn token_iterator_cuts() {
+    let m: [bool; 3] = kani::any();
+    let f: [bool; 3] = kani::any();
+    let pick = |b: bool| -> &'static BitRec { if b { &REC_YES } else { &REC_NO } };
+    let mut recs: Vec<(&'static BitRec, u8, bool)> = Vec::with_capacity(3);
+    recs.push((pick(m[0]), 0u8, f[0]));
+    recs.push((pick(m[1]), 1u8, f[1]));
+    recs.push((pick(m[2]), 2u8, f[2]));
+    let mut it = TokenIterator::new("ab", Position { pos: 0, line_col: None }, recs);
+    // what the documentation prescribes
+    let mut expect = [false; 3];
+    let mut any = false;
+    let mut cut = false;
+    let mut k = 0;
+    while k < 3 {
+        if !cut {
+            if m[k] { expect[k] = true; any = true; }
+            if f[k] && any { cut = true; }
+        }
+        k += 1;
+    }
+    // what the iterator yields
+    let mut got = [false; 3];
+    let mut last: i32 = -1;
+    let mut n = 0;
+    while n < 4 {
+        match it.next() {
+            Some(t) => {
+                assert!((t.kind as i32) > last, "C06: tokens are not produced in table order");
+                last = t.kind as i32;
+                got[t.kind as usize] = true;
+            }
+            None => break,
+        }
+        n += 1;
+    }
+    assert!(got[0] == expect[0] && got[1] == expect[1] && got[2] == expect[2],
+            "C06: a recognizer beyond the end of a priority group that already matched was tried (or one before it was skipped)");
+    assert!(it.next().is_none());
+    kani::cover!(m[0] && !m[1] && f[1] && m[2], "first of a group matches, the flagged last one does not, a lower group would match");
+    kani::cover!(!m[0] && !m[1] && m[2], "only the last matches");
+    std::mem::forget(it);
+}
+
 // Concrete playback (./check <id> --replay): Kani's generated unit test is written to this file, which is empty otherwise.
 include!("/verif/build/gen/playback_rustemo_lexer.rs");
